@@ -442,6 +442,12 @@ def a11(ctx, rid):
         raise core.AnchorLost('records_count_in_active_blob bodies: %d' % n)
 
 
+def a12(ctx, rid):
+    """C07.H7 instance: a quarantined blob keeps its own file name, so that its id is still counted at every later start"""
+    import props.c07 as c07
+    c07.h7(ctx, rid)
+
+
 RULES = [
     Rule('C15.A1', 'every header insertion is counted exactly once; the loader seeds the count from the index file, not from the key map', a1, 5),
     Rule('C15.A2', 'public accessors of the closed-blob vector agree that empty slots are absent', a2, 4),
@@ -453,5 +459,6 @@ RULES = [
     Rule('C15.A9', 'a count is taken from an index file only after the full validation gate (C03.I2 instances)', a9, 2),
     Rule('C15.A10', 'per-key header vectors of the in-memory index only grow or are cleared as a whole', a10, 1),
     Rule('C15.A11', 'records_count_in_active_blob answers Some only where it saw an active blob', a11, 1),
+    Rule('C15.A12', 'a quarantined blob keeps its own file name (its id stays countable; C07.H7 instance)', a12, 1),
     Rule('C15.A6', 'next_blob_id is fed by the ids of opened, failed and quarantined blobs (C07.H6/H6d instances)', a6, 4),
 ]
